@@ -27,7 +27,16 @@ def pick(i):
         return UNIVERSE[3]
     if i == 4:
         return UNIVERSE[4]
-    return UNIVERSE[5]
+    if i == 5:
+        return UNIVERSE[5]
+    # answers that merely CONTAIN or are CONTAINED IN an offered version (never offered themselves)
+    if i == 6:
+        return "2025-06-18-draft"
+    if i == 7:
+        return "2025-03-2"
+    if i == 8:
+        return "v2024-11-05"
+    return "2025-06-18\n"
 
 
 class _Ans:
